@@ -1,7 +1,9 @@
 #!/bin/sh
-# usage: tools_try.sh <worktree> <diff> <prop> [extra check args]   -- applies diff in scratch worktree, runs check --repo, reverts
+# usage: tools_try.sh <worktree> <diff> <prop> [extra check args]
+# brings the scratch worktree to /repo's HEAD, applies the diff there, runs the check with --repo, reverts.
 WT=$1; DIFF=$2; PROP=$3; shift 3
-git -C $WT checkout -q -- . && git -C $WT apply $DIFF || exit 9
+git -C $WT checkout -q -- . && git -C $WT checkout -q --detach $(git -C /repo rev-parse HEAD) || exit 9
+git -C $WT apply $DIFF || { echo "diff does not apply"; exit 9; }
 /verif/check $PROP --repo $WT "$@"
 echo "exit=$?"
 git -C $WT checkout -q -- .
